@@ -49,6 +49,25 @@ PROPS = {
                      'byte strings are valid UTF-8 in generated inputs'],
         trusted_base=['coroutine control flow and kernel tick are modelled by hand (Model/Coroutines, Model/System) and tied by sysdiff'],
     ),
+    'C07': dict(
+        modules=['Resonate.Properties.C07'],
+        tie_filter=r'task|shape|wiring|uniques',
+        harness=[sysdiff('sysdiff-tasks', ['CreatePromise', 'CreatePromiseAndTask', 'CompletePromise', 'ClaimTask', 'CompleteTask', 'HeartbeatTasks', 'CreateCallback'],
+                         (30, 150), (600, 200), 'C07,C08', ['-routed', '70', '-fail', '10', '-crash', '1'], (200, 200)),
+                 storediff('storediff-tasks', TASK_KINDS + ['CreatePromise', 'UpdatePromise', 'CreateCallback'], (20, 30), (500, 40))],
+        rule=SYS_RULE + '; 2-4 workers compete for tasks with current / stale / future counters, lease sweeps and dispatch cycles interleaved; the C07 monitor (no task disappears, counters never decrease, finished tasks never change, a claimed task changes holder only via a counter bump) runs on every committed batch; the driver additionally checks that every transaction dispatched by the model coroutines satisfies wfTx',
+        assumptions=['FIFO execution of store submissions across ticks for the lease statement', 'completion requests carry a valid state'],
+        trusted_base=['task coroutines and kernel tick are modelled by hand and tied by sysdiff; that every yielded UpdateTask satisfies wfUpdateTask is checked at run time by the driver on every dispatched transaction (proved for the block structure only)'],
+    ),
+    'C09': dict(
+        modules=['Resonate.Properties.C09'],
+        tie_filter=r'lock|shape|wiring|uniques',
+        harness=[with_monitor(storediff('storediff-locks', LOCK_KINDS, (30, 40), (800, 50), (300, 50)), 'C09'),
+                 sysdiff('sysdiff-locks', ['AcquireLock', 'ReleaseLock', 'HeartbeatLocks'], (20, 120), (500, 150), 'C09', ['-fail', '10', '-crash', '1'], (150, 150))],
+        rule=SYS_RULE + '; plus storediff over the five lock command kinds (several executions / processes on 3 resources, clock around the lease end); the C09 monitor (at most one lock row per resource) runs on every committed batch',
+        assumptions=['time parameters are whatever the callers pass; theorems quantify over all of them'],
+        trusted_base=['lock coroutines are modelled by hand and tied by sysdiff'],
+    ),
     'C05': dict(
         modules=['Resonate.Properties.C05'],
         tie_filter=r'callback|taskInsertAll|taskCompleteByRootId|promiseUpdate|promiseSelect_|shape|wiring|uniques',
